@@ -111,3 +111,77 @@ def build(cfg: Dict[str, Any]):
     from primaite.game.game import PrimaiteGame
 
     return PrimaiteGame.from_config(copy.deepcopy(cfg))
+
+
+PERMIT_ALL = {1: {"action": "PERMIT"}}
+
+
+def firewalled(ext_in=None, ext_out=None, int_in=None, int_out=None, dmz_in=None, dmz_out=None, dmz=False,
+               bandwidth: Optional[float] = None, **fw_extra) -> Dict[str, Any]:
+    """ext -- fw -- int (and optionally a dmz host): external 192.168.20.0/24, internal 192.168.1.0/24,
+    dmz 192.168.10.0/24."""
+    ports = {
+        "external_port": {"ip_address": "192.168.20.1", "subnet_mask": "255.255.255.0"},
+        "internal_port": {"ip_address": "192.168.1.1", "subnet_mask": "255.255.255.0"},
+    }
+    if dmz:
+        ports["dmz_port"] = {"ip_address": "192.168.10.1", "subnet_mask": "255.255.255.0"}
+    acl = {
+        "internal_inbound_acl": int_in if int_in is not None else copy.deepcopy(PERMIT_ALL),
+        "internal_outbound_acl": int_out if int_out is not None else copy.deepcopy(PERMIT_ALL),
+        "dmz_inbound_acl": dmz_in if dmz_in is not None else copy.deepcopy(PERMIT_ALL),
+        "dmz_outbound_acl": dmz_out if dmz_out is not None else copy.deepcopy(PERMIT_ALL),
+        "external_inbound_acl": ext_in if ext_in is not None else copy.deepcopy(PERMIT_ALL),
+        "external_outbound_acl": ext_out if ext_out is not None else copy.deepcopy(PERMIT_ALL),
+    }
+    fw = {"hostname": "fw", "type": "firewall", "ports": ports, "acl": acl}
+    fw.update(fw_extra)
+    nodes = [
+        host("ext", "192.168.20.2", "computer", gw="192.168.20.1"),
+        host("int", "192.168.1.2", "server", gw="192.168.1.1"),
+        fw,
+    ]
+    links = [link("ext", 1, "fw", 1, bandwidth), link("int", 1, "fw", 2, bandwidth)]
+    if dmz:
+        nodes.append(host("dmz", "192.168.10.2", "server", gw="192.168.10.1"))
+        links.append(link("dmz", 1, "fw", 3, bandwidth))
+    return base_cfg(nodes, links)
+
+
+def dut_net(kind: str, up: int, down: int) -> Dict[str, Any]:
+    """A small network around one device under test of the given node type.
+
+    Returns {"cfg", "dut", "peer", "dut_ip" (or None), "far_ip" (address behind the DUT or None)}."""
+    dur = {"start_up_duration": up, "shut_down_duration": down}
+    if kind in ("computer", "server", "printer"):
+        cfg = base_cfg(
+            [host("peer", "192.168.1.2", "computer"), host("dut", "192.168.1.3", kind, **dur)],
+            [link("peer", 1, "dut", 1)],
+        )
+        return {"cfg": cfg, "dut": "dut", "peer": "peer", "dut_ip": "192.168.1.3", "far_ip": None, "peer_ip": "192.168.1.2"}
+    if kind == "switch":
+        cfg = base_cfg(
+            [
+                host("peer", "192.168.1.2", "computer"),
+                host("far", "192.168.1.4", "server"),
+                {"hostname": "dut", "type": "switch", "num_ports": 4, **dur},
+            ],
+            [link("peer", 1, "dut", 1), link("far", 1, "dut", 2)],
+        )
+        return {"cfg": cfg, "dut": "dut", "peer": "peer", "dut_ip": None, "far_ip": "192.168.1.4", "peer_ip": "192.168.1.2"}
+    if kind == "router":
+        cfg = routed()
+        for n in cfg["simulation"]["network"]["nodes"]:
+            if n["hostname"] == "r":
+                n.update(dur)
+        return {"cfg": cfg, "dut": "r", "peer": "a", "dut_ip": "192.168.1.1", "far_ip": "192.168.2.2", "peer_ip": "192.168.1.2"}
+    if kind == "firewall":
+        cfg = firewalled(**dur)
+        return {"cfg": cfg, "dut": "fw", "peer": "ext", "dut_ip": "192.168.20.1", "far_ip": "192.168.1.2", "peer_ip": "192.168.20.2"}
+    if kind == "wireless-router":
+        cfg = test_asset("wireless_wan_network_config.yaml")
+        for n in cfg["simulation"]["network"]["nodes"]:
+            if n["hostname"] == "router_1":
+                n.update(dur)
+        return {"cfg": cfg, "dut": "router_1", "peer": "pc_a", "dut_ip": "192.168.0.1", "far_ip": "192.168.2.2", "peer_ip": "192.168.0.2"}
+    raise ValueError(kind)
